@@ -36,7 +36,7 @@ var c16Failing = []string{"list_dbs", "get_schema", "monitor", "monitor_cond", "
 // c16Resync: symbolic consistent database; 1 or 2 monitors (any methods) over Root and Child; the connection is
 // cut; a symbolic transaction commits while the client is away; the first nFail reconnection attempts fail at a
 // chosen call (or the connection is cut again inside the monitor restart); then the client reconnects.
-func c16Resync(cfg c04.Cfg, twoMonitors, follow bool) {
+func c16Resync(cfg c04.Cfg, twoMonitors, follow, before bool) {
 	e := c16Env()
 	s := c04.SymState(cfg)
 	rt.Assert(e.Write(c04.SeedOps(s)...), "C16: seeding a consistent state is accepted")
@@ -52,6 +52,15 @@ func c16Resync(cfg c04.Cfg, twoMonitors, follow bool) {
 		rt.Assert(e.c01Monitor(ctx, m) == nil, "C16: the monitor is established")
 	}
 	rt.Assert(e.c01Mirrors(mons...), "C16: the cache mirrors the database before the connection is lost")
+	if before && len(s.Roots) > 0 {
+		// a notification is received before the connection is lost (the client then knows a last transaction id)
+		op := c04.SymOp(s, cfg)
+		ok := s.WellFormed() && s.Normalize()
+		rt.Assume(ok)
+		rt.Assert(e.Write(op), "C16: a transaction committed before the cut is accepted")
+		rt.RunPending()
+		rt.Assert(e.c01Mirrors(mons...), "C16: the cache follows the database before the connection is lost")
+	}
 
 	rt.CutConnections()
 	// while the client is away
@@ -87,10 +96,13 @@ func c16Resync(cfg c04.Cfg, twoMonitors, follow bool) {
 
 var c16Kids = c04.Cfg{Kids: true, NChildren: 2}
 
-func VerifC16One()       { c16Resync(c16Kids, false, false) }
-func VerifC16Two()       { c16Resync(c16Kids, true, false) }
-func VerifC16OneFollow() { c16Resync(c16Kids, false, true) }
-func VerifC16TwoFollow() { c16Resync(c16Kids, true, true) }
+func VerifC16One()       { c16Resync(c16Kids, false, false, false) }
+func VerifC16Two()       { c16Resync(c16Kids, true, false, false) }
+func VerifC16OneFollow() { c16Resync(c16Kids, false, true, false) }
+func VerifC16TwoFollow() { c16Resync(c16Kids, true, true, false) }
+
+// VerifC16OneBefore: as One, with a transaction followed before the cut (a last transaction id is known).
+func VerifC16OneBefore() { c16Resync(c16Kids, false, false, true) }
 
 // VerifC16Transact: the connection is lost while a transaction is in flight (before the request is handled, or
 // after it was applied but before the reply arrives), or not at all.
